@@ -21,19 +21,52 @@ MODEL_CONSTS = {  # the numbers lean/PV/Model/RunLoop.lean uses literally
 }
 
 
-def fallback_lookup_total():
-    """How does Transport.run look the debug name up?  True: no `MSG_NAMES[...]` subscript is left in
-    run() (e.g. `.get(...)`); False: a bare subscript (KeyError for unnamed types); None: cannot tell."""
+def unguarded_name_lookups():
+    """Every `MSG_NAMES[expr]` subscript (load) in paramiko/packet.py and paramiko/transport.py that is not inside the
+    body of an `if expr in MSG_NAMES:` test: [(file, function, line)].  These raise KeyError for a type number
+    without a debug name.  None when a source cannot be read."""
+    import paramiko.packet as P
     import paramiko.transport as T
 
-    try:
-        tree = ast.parse(textwrap.dedent(inspect.getsource(T.Transport.run)))
-    except (OSError, SyntaxError):
-        return None
-    subs = [n for n in ast.walk(tree)
-            if isinstance(n, ast.Subscript) and isinstance(n.value, ast.Name) and n.value.id == "MSG_NAMES"
-            and isinstance(n.ctx, ast.Load)]
-    return not subs
+    out = []
+    for mod in (P, T):
+        try:
+            tree = ast.parse(open(mod.__file__, encoding="utf-8").read())
+        except (OSError, SyntaxError):
+            return None
+        fname = mod.__file__.rsplit("/", 1)[-1]
+
+        def visit(node, guards, func):
+            if isinstance(node, (ast.FunctionDef, ast.AsyncFunctionDef)):
+                func = node.name
+            if isinstance(node, ast.If):
+                g = None
+                t = node.test
+                if (isinstance(t, ast.Compare) and len(t.ops) == 1 and isinstance(t.ops[0], ast.In)
+                        and isinstance(t.comparators[0], ast.Name) and t.comparators[0].id == "MSG_NAMES"):
+                    g = ast.dump(t.left)
+                visit(node.test, guards, func)
+                for st in node.body:
+                    visit(st, guards | ({g} if g else set()), func)
+                for st in node.orelse:
+                    visit(st, guards, func)
+                return
+            if (isinstance(node, ast.Subscript) and isinstance(node.value, ast.Name) and node.value.id == "MSG_NAMES"
+                    and isinstance(node.ctx, ast.Load) and ast.dump(node.slice) not in guards):
+                out.append((fname, func, node.lineno))
+            for ch in ast.iter_child_nodes(node):
+                visit(ch, guards, func)
+
+        visit(tree, set(), "<module>")
+    return out
+
+
+def fallback_lookup_total():
+    """Are all debug-name lookups on the receive/reply path total?  True: no unguarded `MSG_NAMES[...]` subscript is
+    left in packet.py / transport.py (Transport.run's fallback, Packetizer.read_message, send_message, …); False:
+    some lookup raises KeyError for unnamed types; None: cannot tell."""
+    sites = unguarded_name_lookups()
+    return None if sites is None else not sites
 
 
 def read_tables():
@@ -79,8 +112,8 @@ def lean_tables(tables, consts, total):
     cl = ", ".join('("%s", %d)' % (k, v) for k, v in sorted(consts.items(), key=lambda kv: (kv[1], kv[0])))
     return (
         "/- GENERATED from the paramiko tree under test by pv/lib_runloop.py on every run of C09/C11/C12 -- do not edit.\n"
-        "   Key sets of MSG_NAMES and of every dispatch table of Transport.run, every MSG_* constant, and how the\n"
-        "   fallback branch of run() looks the debug name up. -/\n"
+        "   Key sets of MSG_NAMES and of every dispatch table of Transport.run, every MSG_* constant, and whether every\n"
+        "   MSG_NAMES lookup in packet.py/transport.py (run() fallback, read_message, send_message) is total. -/\n"
         "import PV.Model.RunLoop\n"
         "namespace PV.Generated.C12\n"
         "open PV.RunLoop\n\n"
@@ -99,6 +132,7 @@ def write_generated(ctx):
         ctx.broken.append({"kind": "generator", "what": "Transport.run fallback lookup",
                            "detail": "cannot read the source of Transport.run"})
         total = False
+    ctx.extra["unguarded_MSG_NAMES_subscripts"] = unguarded_name_lookups()
     ctx.write_generated("C12", lean_tables(tables, consts, total))
     return tables, consts, total
 
